@@ -5,9 +5,9 @@
    Model/IriEq.v, NaturalLanguageValues.Equals through Model/Nlv.v.
    The theorems are about the REPAIRED code (cfg_fixed); each defect of the pinned tree is refuted on
    the pinned definition (cfg_pinned) below.  Property theorems only; each closed by [exact lemma]. *)
-From AP.Model Require Import Prelude Vocab Pred IriEq Nlv Equal.
+From AP.Model Require Import Prelude Vocab Pred Url IriEq IriNf Nlv Equal.
 From AP.Gen Require Import TypeLists.
-From AP.Proofs Require Import NlvP IriEqP EqualP.
+From AP.Proofs Require Import NlvP IriEqP EqualP EqualNfP.
 
 (* ---- "Comparison ... always terminates": fuel_for x y is enough, more fuel changes nothing ---- *)
 Theorem C09_terminates : forall x y, exists n, forall m, n <= m ->
@@ -42,10 +42,46 @@ Theorem C09_method_nil : forall k fs w o,
 Proof. exact equals_method_nil. Qed.
 
 (* ---- "Two objects whose ids differ in host, path or query ... are never equal" ----
-   FULL STATEMENT: forall objects x y, ids_differ_host_path_query (id x) (id y) -> ieq x y = Ok false.
-   PROVED (partial): for ids that IRI.Equals (with scheme) tells apart.  Missing: the bridge
-   "differ in host, path or query -> iri_eqb _ _ true = false", which is C14's statement
-   (C14_url_char characterises the URL comparison; its string fast path is C14's open partial). *)
+   C09_id: FOR ALL ids in the domain of C14 (iri_dom, Model/IriNf.v: absolute URLs of the grammar of
+   Model/Url.v whose query strings hold no upper-case letter; C09_id_upper: no lower-case letter), where
+   ids_differ_hpq a b = the normal forms without scheme differ = host with port, cleaned path (both ignoring
+   letter case) or the multiset of query parameters differ.  C09_id_host_path / C09_id_query need no condition
+   on the letter case of the queries.  The bridge is C14's characterisation (Proofs/IriNfP.v).
+   C09_id_partial (below, kept) is the statement for arbitrary id strings in terms of IRI.Equals itself; what
+   is NOT covered by C09_id are ids outside the grammar (percent-escapes, userinfo, IPv6 hosts, bytes >= 0x80)
+   and pairs of ids whose queries are in different letter cases (outside C14's domain: "?X=1" and "?x=1"
+   ARE equal for IRI.Equals by its string fast path). ---- *)
+Theorem C09_id : forall p k fs q k' gs,
+  k <> KLink -> k' <> KLink ->
+  iri_dom (get_str F_ID fs) = true -> iri_dom (get_str F_ID gs) = true ->
+  ids_differ_hpq (get_str F_ID fs) (get_str F_ID gs) = true ->
+  ieq (IObj p k fs) (IObj q k' gs) = Ok false /\ ieq (IObj q k' gs) (IObj p k fs) = Ok false.
+Proof. exact ieq_ids_differ_hpq. Qed.
+
+Theorem C09_id_upper : forall p k fs q k' gs,
+  k <> KLink -> k' <> KLink ->
+  iri_dom_upper (get_str F_ID fs) = true -> iri_dom_upper (get_str F_ID gs) = true ->
+  ids_differ_hpq (get_str F_ID fs) (get_str F_ID gs) = true ->
+  ieq (IObj p k fs) (IObj q k' gs) = Ok false /\ ieq (IObj q k' gs) (IObj p k fs) = Ok false.
+Proof. exact ieq_ids_differ_hpq_upper. Qed.
+
+Theorem C09_id_host_path : forall p k fs q k' gs u w,
+  k <> KLink -> k' <> KLink ->
+  url_classify (get_str F_ID fs) = UValid u -> url_classify (get_str F_ID gs) = UValid w ->
+  lower (u_host u) <> lower (u_host w) \/
+  lower (clean_url_path path_clean (u_path u)) <> lower (clean_url_path path_clean (u_path w)) ->
+  ieq (IObj p k fs) (IObj q k' gs) = Ok false /\ ieq (IObj q k' gs) (IObj p k fs) = Ok false.
+Proof. exact ieq_ids_differ_host_path. Qed.
+
+Theorem C09_id_query : forall p k fs q k' gs u w,
+  k <> KLink -> k' <> KLink ->
+  url_classify (get_str F_ID fs) = UValid u -> url_classify (get_str F_ID gs) = UValid w ->
+  lower (u_query u) <> lower (u_query w) ->
+  ~ Permutation.Permutation (query_pairs (u_query u)) (query_pairs (u_query w)) ->
+  ieq (IObj p k fs) (IObj q k' gs) = Ok false /\ ieq (IObj q k' gs) (IObj p k fs) = Ok false.
+Proof. exact ieq_ids_differ_query. Qed.
+
+(* arbitrary id strings: ids that IRI.Equals (with scheme) tells apart *)
 Theorem C09_id_partial : forall p k fs q k' gs,
   k <> KLink -> k' <> KLink ->
   iri_eqb (get_str F_ID fs) (get_str F_ID gs) true = false ->
@@ -153,6 +189,18 @@ Example C09_example_identity :
   ieq (IIri false ex_alice) (ex_note ex_alice []) = Ok true.
 Proof. repeat split; vm_compute; reflexivity. Qed.
 
+(* the hypotheses of C09_id hold: ids in the domain that differ in host / in path / in the query multiset;
+   and presentations of one id (case, dot segments, trailing slash, query order, fragment) do not differ *)
+Example C09_example_id_domain :
+  let a := B "https://example.com/notes/1?x=1&y=2" in
+  iri_dom a = true /\
+  iri_dom (B "https://example.org/notes/1?x=1&y=2") = true /\ ids_differ_hpq a (B "https://example.org/notes/1?x=1&y=2") = true /\
+  iri_dom (B "https://example.com/notes/2?x=1&y=2") = true /\ ids_differ_hpq a (B "https://example.com/notes/2?x=1&y=2") = true /\
+  iri_dom (B "https://example.com/notes/1?x=1&y=3") = true /\ ids_differ_hpq a (B "https://example.com/notes/1?x=1&y=3") = true /\
+  iri_dom (B "HTTP://EXAMPLE.com/notes/./1/?y=2&x=1#f") = true /\ ids_differ_hpq a (B "HTTP://EXAMPLE.com/notes/./1/?y=2&x=1#f") = false /\
+  ieq (ex_note a []) (ex_note (B "https://example.com/notes/1?x=1&y=3") []) = Ok false.
+Proof. cbv zeta. repeat split; vm_compute; reflexivity. Qed.
+
 (* one property changed, the holder second: unequal; the hypotheses of C09_sensitive_core hold *)
 Example C09_example_sensitive :
   ieq (ex_note ex_alice []) (ex_note ex_alice [(F_Summary, FNlv (Some [(B "en", B "s")]))]) = Ok false /\
@@ -207,3 +255,78 @@ Theorem C09_method_nil_pinned_refuted :
   equals_method cfg_pinned ieq_pinned KActor [(F_ID, FStr ex_alice)] (IItems false None) = Some (Ok true) /\
   (exists p, equals_method cfg_pinned ieq_pinned KIntransitive [(F_ID, FStr ex_alice)] (ITNil KObject) = Some (Panic p)).
 Proof. repeat split; try (eexists; vm_compute; reflexivity); vm_compute; reflexivity. Qed.
+
+(* ---- generated-table tie (b26) ---- *)
+(* The compared-field lists of the nine per-type Equals methods ([object_cmps] ... [link_cmps] of Model/Equal.v),
+   their guards and their delegation to the base type's Equals are no longer tied to the source by the
+   correspondence check alone: Gen/EqualsT.v is regenerated from the method bodies on every run
+   (translator/equalst.go: every statement, every guarded comparison block with its guard shape, comparison
+   shape and field names; an unrecognised statement is an explicit entry).  Model/EqualsTab.v gives a table its
+   meaning ([equals_method_t], an interpreter) and states the decidable condition [equals_table_ok]: per struct
+   type the generated method, classified into the model's vocabulary, is the statement sequence the model was
+   written after (built from the very constants the model runs on); no struct type without a modelled method has
+   one.  A source change that drops, reorders or alters a block breaks C09_equals_table. *)
+From AP.Model Require Import EqualsTab EqualsGen.
+From AP.Proofs Require Import EqualsTabP.
+
+(* generic: for EVERY table that satisfies the condition, the table's meaning is the model the theorems above
+   are about - for all receivers, arguments and one-level-down comparisons *)
+Theorem C09_equals_table_tie : forall tbl others, equals_table_ok tbl others = true ->
+  forall rec k fs w, equals_method_t tbl rec k fs w = equals_method cfg_fixed rec k fs w.
+Proof. exact equals_table_tie'. Qed.
+
+(* the model's side of the condition is not a third copy of the code: interpreted, it IS the model *)
+Theorem C09_model_shape_is_model : forall rec k fs w,
+  interp_method rec model_shape k fs w = equals_method cfg_fixed rec k fs w.
+Proof. exact interp_model_shape'. Qed.
+
+(* diagnosis first: when the source moved, this is the obligation that fails, and Coq's error message shows the
+   struct type and the first step at which the generated method and the model differ
+   ("Unable to unify None with Some (KObject, Some (8, Some (CCmp (CItem F_Image)), Some (CCmp (CItem F_Icon))), None)";
+   the last component is the source position of an unrecognised statement or the block the model has no reading
+   for, when there is one) *)
+Theorem C09_equals_table_first_bad : first_bad_step gen_equals_table = None.
+Proof. vm_compute. reflexivity. Qed.
+
+(* the condition on the tables regenerated from the source on this run *)
+Theorem C09_equals_table : equals_table_ok gen_equals_table gen_equals_others = true.
+Proof. vm_compute. reflexivity. Qed.
+
+(* hence: the Equals methods as the source says them now are the model's *)
+Theorem C09_equals_gen : forall rec k fs w,
+  equals_method_gen rec k fs w = equals_method cfg_fixed rec k fs w.
+Proof. exact (C09_equals_table_tie gen_equals_table gen_equals_others C09_equals_table). Qed.
+
+(* non-vacuity: the generated table has the nine methods, and evaluating it tells two notes with different icons
+   apart *)
+Example C09_equals_gen_example :
+  length gen_equals_table = 9 /\
+  equals_method_gen ieq KObject (tg_note tg_icon_a) (IObj true KObject (tg_note tg_icon_b)) = Some (Ok false) /\
+  equals_method_gen ieq KObject (tg_note tg_icon_a) (IObj true KObject (tg_note tg_icon_a)) = Some (Ok true).
+Proof. repeat split; vm_compute; reflexivity. Qed.
+
+(* what the condition is for: the table of a source in which Object.Equals lost its icon block fails it at
+   exactly that step, and that table's meaning calls the two notes equal *)
+Example C09_dropped_block_rejected :
+  equals_table_ok (table_without F_Icon) gen_equals_others = false /\
+  first_bad_step (table_without F_Icon)
+    = Some (KObject, Some (8, Some (CCmp (CItem F_Image)), Some (CCmp (CItem F_Icon))), None) /\
+  equals_method_t (table_without F_Icon) ieq KObject (tg_note tg_icon_a) (IObj true KObject (tg_note tg_icon_b))
+    = Some (Ok true).
+Proof. repeat split; vm_compute; reflexivity. Qed.
+
+(* the behaviour classes the dynamic table extraction compares (Model/EqualsDyn.v; harness/zz_eqdyn.go probes the
+   real methods property by property, the case sets Cases_C09dynM / Cases_C09dynS are evaluated with the
+   correspondence cases): read off the model along the delegation chain, off the static table, and off the answers
+   of one probe series *)
+From AP.Model Require Import Layout EqualsDyn.
+Example C09_dyn_classes :
+  model_class KActor F_PreferredUsername = Some (Some DNlvSet) /\
+  model_class KActor F_Name = Some (Some DNlvLen) /\
+  model_class KOrderedPage F_OrderedItems = Some (Some DList) /\
+  model_class KActor F_Source = Some None /\
+  static_class gen_equals_table KLink F_Href = Some (Some (Some DIri)) /\
+  dyn_class TNlv (mkobs (Some true) (Some false) (Some true) (Some false) (Some false) None None None)
+    = Some (Some DNlvSet) /\
+  dyn_class TSource (mkobs (Some true) (Some true) (Some true) (Some true) None None None None) = Some None.
+Proof. repeat split; vm_compute; reflexivity. Qed.
